@@ -13,6 +13,13 @@ prop('C16', 'model_checking', 'explicit-state BFS to closure over the real bitma
      'small-scope (bitmap sizes <= 17 elements); set/get_range restricted to byte-aligned starts and set lengths multiple of 8 as all in-tree callers do; '
      'trusted: the 60-line reference model, gcc/ASan.', '4/C16')
 
+prop('C17', 'model_checking', 'explicit-state BFS over I/O-channel histories on the real unix_io.c (in-memory device, byte-array model, injected write failures) + preemption-bounded exhaustive schedule exploration of ext2fs_rw_bitmaps + TSan pass',
+     'Part A: every history of the 112-operation channel alphabet up to the depth bound (de-duplicated on the cache/control state, so deeper histories that revisit a state are covered too) is run on the real unix_io.c; '
+     'each read must return the last written bytes, flush/close must leave the backing file equal to the model, and for every single failed device write some caller must see an error. '
+     'Part B: threaded bitmap loading equals single-threaded loading for all thread counts 2..16 on ~200 geometries, for every schedule with <= 2 (thorough 3) preemptions of 2-4 workers, with a read failure at every position; '
+     'data races are decided by a separate free-running ThreadSanitizer pass.',
+     'depth-bounded (quick 4 / thorough 5 operations beyond de-duplication), 16 KiB device; scheduler hooks pthread_create/join/mutex_lock/unlock and pread64 by link-time wrapping (no source hook); sequential consistency assumed, TSan covers unsynchronised accesses.', '4/C17')
+
 def main():
     props = [json.loads(l) for l in open(os.path.join(V, 'properties.jsonl'))]
     checks, na = [], []
@@ -32,7 +39,9 @@ def main():
                    'baseline_off_cmd': 'make -C /repo -k check', 'source_commits': [], 'add_only': True},
          'engines': [{'name': 'vcheck', 'path': 'tools/vcheck', 'serves_properties': [c['property_id'] for c in checks],
                       'kind_free_text': 'dispatcher: rebuilds /repo working tree (tools/build.sh), runs the per-property explorer in tools/checks/, writes evidence'},
-                     {'name': 'bitmapx', 'path': 'engines/bitmapx.c', 'serves_properties': ['C16'], 'kind_free_text': 'explicit-state closure explorer over real bitmap backends'}],
+                     {'name': 'bitmapx', 'path': 'engines/bitmapx.c', 'serves_properties': ['C16'], 'kind_free_text': 'explicit-state closure explorer over real bitmap backends'},
+                     {'name': 'iochanx', 'path': 'engines/iochanx.c', 'serves_properties': ['C17'], 'kind_free_text': 'BFS over channel histories on unix_io.c with an in-memory device (engines/vdev.h)'},
+                     {'name': 'rwbmx', 'path': 'engines/rwbmx.c', 'serves_properties': ['C17'], 'kind_free_text': 'preemption-bounded scheduler (futex baton, --wrap hooks) + ICB DFS, differential and TSan modes'}],
          'checks': checks, 'not_applicable': na,
          'notes': 'All checks rebuild from /repo\'s current working tree into /verif/build (git-ignored). Scratch files live in /dev/shm/verif.* and are removed on exit.'}
     json.dump(m, open(os.path.join(V, 'MANIFEST.json'), 'w'), indent=1)
